@@ -4,6 +4,7 @@ import Karp.Model.PriceOrder
 import Karp.Model.FirstSuccess
 import Karp.Model.ReservedFallback
 import Karp.Model.PoolFilter
+import Karp.Model.Relax
 import Karp.Spec.WeightPrice
 import Karp.Spec.PoolPass
 
@@ -155,13 +156,19 @@ def toNodeClaim (inp impl : Json) : Except String Resp := do
     let hasReq ← boolF impl "has_type_req"
     let label ← strF impl "pool_label"
     let modelNames := toNodeClaimTypes static reqs maxT its
-    let allowed := label == pool &&
+    -- the NodeClaim is restricted to its own pool: requirement nodepool In [pool] (absent in older corpus outputs)
+    let poolReqOk ← match impl.getObjVal? "pool_req" with
+      | .error _ => pure true
+      | .ok Json.null => pure false
+      | .ok v => do pure ((← strList v) == [pool])
+    let allowed := label == pool && poolReqOk &&
       (match modelNames with
        | none => got.isEmpty && !hasReq
        | some _ => keptSetAllowed reqs maxT its got)
-    let specOk := label == pool && (if static then got.isEmpty else cheapestKeptSpec reqs maxT its got)
+    let specOk := label == pool && poolReqOk && (if static then got.isEmpty else cheapestKeptSpec reqs maxT its got)
     pure { allowed := some allowed, spec := some specOk,
            why := if specOk then (if allowed then "" else "not the prefix of a price-sorted permutation")
+                  else if !poolReqOk then s!"the NodeClaim of NodePool {pool} does not require {Karp.Spec.PoolPass.nodePoolKey} In [{pool}]: pods selecting a pool by name are not kept to it"
                   else s!"the NodeClaim's instance types are not the {maxT} cheapest options (or the NodePool label is wrong)" }
 
 /-! ## c19.parallel -/
@@ -224,6 +231,7 @@ def parsePool (j : Json) : Except String PPool := do
          labels := ← parseLabels ((fldOpt j "labels").getD Json.null),
          taints := ← (do strList ((fldOpt j "taints").getD (Json.arr #[]))),
          types := ← (← arrD j "types").mapM parsePType,
+         softTaints := ← (do strList ((fldOpt j "soft_taints").getD (Json.arr #[]))),
          conds := ← parseConds j }
 
 /-- the model's side of "which pools become templates": the filter closure of `Provisioner.NewScheduler`
@@ -239,22 +247,35 @@ def parsePod (j : Json) : Except String PPod := do
   let sel ← parseReqs j "sel"
   let aff ← parseReqs j "aff"
   pure { name := ← strF j "name", cpu := ← natF j "cpu", reqs := sel ++ aff,
-         tol := ← (do strList ((fldOpt j "tol").getD (Json.arr #[]))) }
+         tol := ← (do strList ((fldOpt j "tol").getD (Json.arr #[]))),
+         tolAll := ← (do strList ((fldOpt j "tol_all").getD (Json.arr #[]))),
+         tolSoft := ← (do strList ((fldOpt j "tol_soft").getD (Json.arr #[]))) }
 
 def parseClaim (j : Json) : Except String Claim := do
-  pure { pool := ← strF j "pool", pods := ← (do strList (← fld j "pods")), types := ← (do strList (← fld j "types")) }
+  -- pool_req: absent = not observed (older corpus outputs), null = observed, no such requirement, [..] = its values
+  let poolReq : Option (Option (List String)) ← match j.getObjVal? "pool_req" with
+    | .error _ => pure none
+    | .ok Json.null => pure (some none)
+    | .ok v => do pure (some (some (← strList v)))
+  pure { pool := ← strF j "pool", pods := ← (do strList (← fld j "pods")), types := ← (do strList (← fld j "types")),
+         poolReq := poolReq }
 
 /-- the model's prediction for a pod that needs a new node: the usable pools in `OrderByWeight` order, one outcome per
-    template, the sequential first success (C19_first_success: every schedule gives the same) -/
+    template and round — the taint preference counts as a requirement in the first round and is dropped by
+    `Preferences.Relax` for the second, which exists only if some template pool has a `PreferNoSchedule` taint
+    (`Model/Relax`) —, per round the sequential first success (C19_first_success: every schedule gives the same) -/
 def modelPool (pools : List PPool) (pod : PPod) : Option String :=
   let usablePools := pools.filter modelEligible
   let keyed := usablePools.map (fun p => ({ name := bytesOf p.name, weight := p.weight } : Pool))
   let ordered := orderByWeight keyed
   let poolOf (k : Pool) : Option PPool := usablePools.find? (fun p => bytesOf p.name == k.name)
-  let outs := ordered.map (fun k => match poolOf k with
-    | some p => if hosts p [pod] then Outcome.ok else Outcome.fail
+  let outs (strict : Bool) := ordered.map (fun k => match poolOf k with
+    | some p => if hosts p [pod] && (!strict || prefers p pod) then Outcome.ok else Outcome.fail
     | none => Outcome.fail)
-  match sequentialResult outs with
+  let soft := ordered.map (fun k => match poolOf k with
+    | some p => !p.softTaints.isEmpty
+    | none => false)
+  match Karp.Relax.placeSequential soft (outs true) (outs false) with
   | none => none
   | some i => (ordered[i]?.bind poolOf).map (·.name)
 
@@ -266,7 +287,10 @@ def claimAllowed (pools : List PPool) (pods : List PPod) (maxTypes : Int) (c : C
     else
       let group := c.pods.filterMap (findPod pods)
       let opts := (optionsFor p group).map toIType
-      if !keptSetAllowed (claimReqs p group) maxTypes opts c.types then
+      -- NewNodeClaimTemplate: the template requires nodepool In [its pool]; intersected with whatever the pods ask
+      if c.poolReq.isSome && c.poolReq != some (some [p.name]) then
+        some s!"model: the NodeClaim in {p.name} carries the requirement {nodePoolKey} In [{p.name}], implementation: {c.poolReq.getD none}"
+      else if !keptSetAllowed (claimReqs p group) maxTypes opts c.types then
         some s!"model: instance types {c.types} of the claim in {p.name} are not a {maxTypes}-prefix of a price-sorted permutation of {opts.map (·.name)}"
       else none
   | _, _ => some "model: claim names an unknown pod or pool"
